@@ -352,7 +352,8 @@ def replay_file(pid, path):
 def get_counterexample(pid, harness, mem_gb, harness_timeout_s):
     """Re-run one failing harness with concrete playback; write the replay file."""
     # trace generation is slower than the plain verdict: allow three times the harness timeout
-    r = run_kani([harness], 1, max(3 * harness_timeout_s, 900), mem_gb, exact=True, playback=True,
+    # (and kani-driver needs a lot of memory to parse CBMC's JSON trace of large harnesses)
+    r = run_kani([harness], 1, max(3 * harness_timeout_s, 900), max(mem_gb, 48), exact=True, playback=True,
                  logname=f"{pid}-playback-{sanitize(harness)}.log", cbmc_args=props.PROPS[pid].get("cbmc_args"))
     hr = r["results"].get(harness)
     if not hr or "playback" not in hr:
